@@ -16,7 +16,7 @@ from vlib import log
 from props import c02
 
 LEVEL = "model_checking"
-EVS = c02.API_EVS | {"call", "reader_new", "reload_start", "reload", "held", "peek", "schedule"}
+EVS = c02.API_EVS | {"call", "reader_new", "reload_start", "reload", "read_start", "held", "peek", "schedule"}
 
 
 def prepare(events):
